@@ -146,6 +146,8 @@ def crash_in_generated(r):
     text = r.out + "\n" + r.err
     if "[build failed]" in text or not CRASH_RE.search(text):
         return None
+    if "panic: test timed out after" in text:
+        return None   # the go test watchdog is wall-clock time: inconclusive, whatever the goroutine dump shows
     m = CRASH_RE.search(text)
     tail = text[m.start():]
     g = GEN_FRAME_RE.search(tail)
